@@ -1,7 +1,11 @@
 //! C20: string views, numeric comparators, iterators, join/split.
-//! M+S cells (Coq mechanism model): decimal_strcmp, realnum_strcmp.
-//! S-only cells (direct oracle against std): FastStr, join*, words, SortedVecLexIterator,
-//! LineSplitter, LineProcessor, ASCII case conversion.
+//! M+S cells (Coq mechanism model + theorems, cases evaluated in Coq): decimal_strcmp, realnum_strcmp, join (all entry
+//! points), split (LineSplitter both strategies, FastStr::split), words, LineProcessor (default configuration),
+//! ASCII case conversion, SortedVecLexIterator.
+//! S-only cells (direct oracle against std): FastStr, StreamingLexIterator, SortableStrVec, ZoSortedStrVec, unicode,
+//! LineProcessor configurations.
+#[path = "c20_more.rs"]
+mod more;
 use crate::util::*;
 use serde_json::{json, Value};
 use std::cmp::Ordering;
@@ -12,11 +16,10 @@ use zipora::string::{
 };
 
 const HEADER: &str = r#"From ZV.Common Require Import Base Run.
-From ZV.C20 Require Import Model.
+From ZV.C20 Require Import Model ModelStr Cases.
 Open Scope N_scope.
-Definition case_t : Type := N * list N * list N * Z.
-Definition ok (c : case_t) : bool :=
-  let '(op, a, b, expect) := c in Z.eqb (run_case op a b) expect.
+Definition case_t : Type := Cases.case.
+Definition ok (c : case_t) : bool := Cases.case_ok c.
 "#;
 
 fn ord_code(o: Option<Ordering>) -> i64 {
@@ -52,7 +55,7 @@ fn oracle(a: &[u8], b: &[u8], real: bool) -> Option<Ordering> {
     Some(x.cmp(&y))
 }
 
-struct Ctx { sum: Summary, shards: CoqShards, budget: usize }
+struct Ctx { sum: Summary, shards: CoqShards, budget: usize, emit: bool }
 
 fn cmp_case(cx: &mut Ctx, a: &[u8], b: &[u8], to_coq: bool) {
     // inputs are ASCII by construction (the API takes &str)
@@ -70,7 +73,7 @@ fn cmp_case(cx: &mut Ctx, a: &[u8], b: &[u8], to_coq: bool) {
                     cx.sum.fail(name, None, cj.clone(), &format!("got {:?}, numeric order says {:?}", got, want));
                 }
                 if to_coq && cx.shards.len() < cx.budget {
-                    let term = format!("({}, {}, {}, {})", op, coq_bytes(a), coq_bytes(b), coq_z(ord_code(got) as i128));
+                    let term = format!("(CCmp {} {} {} {})", op, coq_bytes(a), coq_bytes(b), coq_z(ord_code(got) as i128));
                     cx.shards.push(term, cj);
                 }
             }
@@ -186,14 +189,25 @@ fn join_case(cx: &mut Ctx, sep: &str, parts: &[String]) {
         let refs: Vec<&str> = parts.iter().map(|s| s.as_str()).collect();
         let want = refs.join(sep);
         let mut bad: Vec<String> = vec![];
+        let mut terms: Vec<String> = vec![];
         if join_str(sep, &refs) != want { bad.push("join_str".into()); }
         let brefs: Vec<&[u8]> = parts.iter().map(|s| s.as_bytes()).collect();
-        if join(sep.as_bytes(), &brefs) != want.as_bytes() { bad.push("join".into()); }
+        let jout = join(sep.as_bytes(), &brefs);
+        if jout != want.as_bytes() { bad.push("join".into()); }
+        terms.push(format!("(CJoin {} {} {})%N", more::coq_bl(sep.as_bytes()), more::coq_bll(parts), more::coq_bl(&jout)));
+        let mut jb2 = JoinBuilder::with_capacity(sep, parts.len());
+        for p in &refs { jb2.push(p); }
+        if jb2.len() != parts.len() || jb2.is_empty() != parts.is_empty() { bad.push("JoinBuilder::len/is_empty".into()); }
+        terms.push(format!("(CJoin {} {} {})%N", more::coq_bl(sep.as_bytes()), more::coq_bll(parts), more::coq_bl(jb2.build().as_bytes())));
         let fs: Vec<FastStr> = parts.iter().map(|s| FastStr::from_string(s)).collect();
         if join_fast_str(sep, &fs) != want { bad.push("join_fast_str".into()); }
         if join_iter(sep, refs.iter().cloned()) != want { bad.push(format!("join_iter got {:?} want {:?}", join_iter(sep, refs.iter().cloned()), want)); }
         let leaked: Vec<&'static [u8]> = parts.iter().map(|s| &*Box::leak(s.as_bytes().to_vec().into_boxed_slice())).collect();
-        if join_bytes_iter(sep.as_bytes(), leaked.iter().cloned()) != want.as_bytes() { bad.push("join_bytes_iter".into()); }
+        let jiout = join_bytes_iter(sep.as_bytes(), leaked.iter().cloned());
+        if jiout != want.as_bytes() { bad.push("join_bytes_iter".into()); }
+        terms.push(format!("(CJoinIter {} {} {})%N", more::coq_bl(sep.as_bytes()), more::coq_bll(parts), more::coq_bl(&jiout)));
+        // the length is exactly the precomputed capacity: sum of the parts + (n-1) separators
+        if !parts.is_empty() && want.len() != parts.iter().map(|p| p.len()).sum::<usize>() + sep.len() * (parts.len() - 1) { bad.push("joined length".into()); }
         let mut jb = JoinBuilder::new(sep);
         for p in &refs { jb.push(p); }
         if jb.build() != want { bad.push("JoinBuilder::build".into()); }
@@ -210,11 +224,54 @@ fn join_case(cx: &mut Ctx, sep: &str, parts: &[String]) {
             let mut lo = LineSplitter::new().with_optimized_strategy();
             if lo.split(&joined, sep) != parts { bad.push(format!("LineSplitter(optimized) split(join) got {:?}", lo.split(&joined, sep))); }
         }
-        bad
+        (bad, terms)
     });
     match r {
         Err(p) => cx.sum.fail(cell, None, cj, &format!("panicked: {}", p)),
-        Ok(bad) => if !bad.is_empty() { cx.sum.fail(cell, None, cj, &bad.join("; ")); }
+        Ok((bad, terms)) => {
+            if !bad.is_empty() { cx.sum.fail(cell, None, cj.clone(), &bad.join("; ")); }
+            for t in terms { more::push_coq(cx, t, cj.clone()); }
+        }
+    }
+}
+
+/// Splitting an arbitrary text at a single-byte delimiter: both LineSplitter strategies against the
+/// straightforward definition (std split), FastStr::split against its convention (no trailing empty field, "" -> []).
+fn split_case(cx: &mut Ctx, text: &str, d: u8) {
+    let cell = "split";
+    cx.sum.eval(cell, &format!("split {:?} {}", text, d), text.len() >= 2);
+    let cj = json!({"cell": "split", "text": text, "d": d});
+    if !d.is_ascii() { return; }
+    let r = guarded(|| {
+        let mut bad: Vec<String> = vec![];
+        let mut terms: Vec<String> = vec![];
+        let ds = (d as char).to_string();
+        let want: Vec<String> = text.split(d as char).map(|s| s.to_string()).collect();
+        let mut simple = LineSplitter::new();
+        let got_s = simple.split(text, &ds).to_vec();
+        if got_s != want { bad.push(format!("LineSplitter(simple) got {:?} want {:?}", got_s, want)); }
+        let mut opt = LineSplitter::new().with_optimized_strategy();
+        let got_o = opt.split(text, &ds).to_vec();
+        if got_o != want { bad.push(format!("LineSplitter(optimized) got {:?} want {:?}", got_o, want)); }
+        let mut custom = LineSplitter::new().with_delimiter(ds.clone());
+        if custom.split(text, &ds) != want { bad.push("LineSplitter(custom)".into()); }
+        // reuse of the same splitter must not leak fields of the previous call
+        if opt.split("x", &ds) != ["x".to_string()] { bad.push("LineSplitter reuse".into()); }
+        let got_f: Vec<Vec<u8>> = FastStr::from_string(text).split(d).map(|p| p.as_bytes().to_vec()).collect();
+        let mut want_f: Vec<Vec<u8>> = want.iter().map(|s| s.as_bytes().to_vec()).collect();
+        if want_f.last().map_or(false, |l| l.is_empty()) { want_f.pop(); }
+        if got_f != want_f { bad.push(format!("FastStr::split got {:?} want {:?}", got_f, want_f)); }
+        terms.push(format!("(CSplit 0 {} {} {})%N", d, more::coq_bl(text.as_bytes()), more::coq_bll(&got_o)));
+        terms.push(format!("(CSplit 2 {} {} {})%N", d, more::coq_bl(text.as_bytes()), more::coq_bll(&got_s)));
+        terms.push(format!("(CSplit 1 {} {} {})%N", d, more::coq_bl(text.as_bytes()), more::coq_bll(&got_f)));
+        (bad, terms)
+    });
+    match r {
+        Err(p) => cx.sum.fail(cell, None, cj, &format!("panicked: {}", p)),
+        Ok((bad, terms)) => {
+            if !bad.is_empty() { cx.sum.fail(cell, None, cj.clone(), &bad.join("; ")); }
+            for t in terms { more::push_coq(cx, t, cj.clone()); }
+        }
     }
 }
 
@@ -229,12 +286,34 @@ fn words_case(cx: &mut Ctx, text: &[u8]) {
         let got: Vec<&[u8]> = words(text).collect();
         let mut bad: Vec<String> = vec![];
         if got != want { bad.push(format!("words got {:?} want {:?}", got, want)); }
-        if word_count(text) != want.len() { bad.push("word_count".into()); }
-        bad
+        let wc = word_count(text);
+        if wc != want.len() { bad.push("word_count".into()); }
+        // boundaries: 0 and len always; inside exactly where word-ness changes; every word is found again by word_at_position
+        let wb = zipora::string::find_word_boundaries(text);
+        let mut want_b: Vec<usize> = vec![0];
+        for i in 1..text.len() { if is_word(text[i - 1]) != is_word(text[i]) { want_b.push(i); } }
+        if !text.is_empty() { want_b.push(text.len()); }
+        if wb != want_b { bad.push(format!("find_word_boundaries got {:?} want {:?}", wb, want_b)); }
+        for i in 0..=text.len() + 1 {
+            let wantb = i == 0 || i >= text.len() || is_word(text[i - 1]) != is_word(text[i]);
+            if zipora::string::is_word_boundary(text, i) != wantb { bad.push(format!("is_word_boundary({})", i)); }
+            let wantw = if i < text.len() && is_word(text[i]) {
+                let mut st = i; while st > 0 && is_word(text[st - 1]) { st -= 1; }
+                let mut en = i; while en < text.len() && is_word(text[en]) { en += 1; }
+                Some((st, en))
+            } else { None };
+            if zipora::string::word_at_position(text, i) != wantw { bad.push(format!("word_at_position({})", i)); }
+        }
+        for c in 0..=255u8 { if zipora::string::is_word_char(c) != is_word(c) { bad.push(format!("is_word_char({})", c)); } }
+        let term = format!("(CWords {} {} {})%N", more::coq_bl(text), more::coq_bll(&got), wc);
+        (bad, term)
     });
     match r {
         Err(p) => cx.sum.fail(cell, None, cj, &format!("panicked: {}", p)),
-        Ok(bad) => if !bad.is_empty() { cx.sum.fail(cell, None, cj, &bad.join("; ")); }
+        Ok((bad, term)) => {
+            if !bad.is_empty() { cx.sum.fail(cell, None, cj.clone(), &bad.join("; ")); }
+            more::push_coq(cx, term, cj);
+        }
     }
 }
 
@@ -277,6 +356,25 @@ fn lex_iter_case(cx: &mut Ctx, strings: &[String], probes: &[String]) {
             let mut rest2: Vec<String> = vec![];
             while let Some(c) = it.current() { rest2.push(c.to_string()); if !it.next().unwrap() { break; } }
             if rest2 != strings[ub..] { bad.push(format!("seek_upper_bound({:?}) enumerates {:?}, want {:?}", p, rest2, &strings[ub..])); }
+            // the strings with a given prefix form one block of the sorted list: counting them must find all
+            match zipora::string::utils::lex_utils::count_with_prefix(SortedVecLexIterator::new(strings), p) {
+                Ok(c) => { let want = strings.iter().filter(|s| s.starts_with(p.as_str())).count(); if c != want { bad.push(format!("count_with_prefix({:?}) = {}, want {}", p, c, want)); } }
+                Err(e) => bad.push(format!("count_with_prefix: {}", e)),
+            }
+        }
+        match zipora::string::utils::lex_utils::collect_all(SortedVecLexIterator::new(strings)) {
+            Ok(v) => if v != strings { bad.push(format!("collect_all {:?}", v)); },
+            Err(e) => bad.push(format!("collect_all: {}", e)),
+        }
+        let want_lcp: String = if strings.is_empty() { String::new() } else {
+            let first: Vec<char> = strings[0].chars().collect();
+            let mut k = first.len();
+            for s in strings { k = k.min(first.iter().zip(s.chars()).take_while(|(a, b)| **a == *b).count()); }
+            first[..k].iter().collect()
+        };
+        match zipora::string::utils::lex_utils::find_common_prefix(SortedVecLexIterator::new(strings)) {
+            Ok(v) => if v != want_lcp { bad.push(format!("find_common_prefix {:?}, want {:?}", v, want_lcp)); },
+            Err(e) => bad.push(format!("find_common_prefix: {}", e)),
         }
         bad
     });
@@ -317,11 +415,21 @@ fn lines_case(cx: &mut Ctx, text: &str) {
         if n != want.len() { bad.push("process_lines count".into()); }
         let mut lp2 = LineProcessor::with_config(text.as_bytes(), cfg);
         if lp2.count_lines().unwrap() != want.len() { bad.push("count_lines".into()); }
-        bad
+        // the same definition, from std
+        if want != text.lines().map(|l| l.to_string()).collect::<Vec<_>>() { bad.push("harness self-check: reference differs from str::lines".into()); }
+        let mut lp3 = LineProcessor::new(text.as_bytes());
+        let mut got3: Vec<String> = vec![];
+        lp3.process_lines(|l| { got3.push(l.to_string()); Ok(true) }).unwrap();
+        if got3 != want { bad.push("LineProcessor::new (default configuration)".into()); }
+        let term = format!("(CLines {} {})%N", more::coq_bl(text.as_bytes()), more::coq_bll(&got));
+        (bad, term)
     });
     match r {
         Err(p) => cx.sum.fail(cell, None, cj, &format!("panicked: {}", p)),
-        Ok(bad) => if !bad.is_empty() { cx.sum.fail(cell, None, cj, &bad.join("; ")); }
+        Ok((bad, term)) => {
+            if !bad.is_empty() { cx.sum.fail(cell, None, cj.clone(), &bad.join("; ")); }
+            more::push_coq(cx, term, cj);
+        }
     }
 }
 
@@ -332,13 +440,35 @@ fn case_conv(cx: &mut Ctx, text: &[u8]) {
     let r = guarded(|| {
         let mut bad: Vec<String> = vec![];
         let t: String = String::from_utf8_lossy(text).into_owned();
-        if zipora::string::to_lowercase_ascii_bmi2(&t) != t.to_ascii_lowercase() { bad.push("to_lowercase_ascii_bmi2".into()); }
-        if zipora::string::to_uppercase_ascii_bmi2(&t) != t.to_ascii_uppercase() { bad.push("to_uppercase_ascii_bmi2".into()); }
-        bad
+        let lo = zipora::string::to_lowercase_ascii_bmi2(&t);
+        let up = zipora::string::to_uppercase_ascii_bmi2(&t);
+        if lo != t.to_ascii_lowercase() { bad.push(format!("to_lowercase_ascii_bmi2 got {:?}", lo)); }
+        if up != t.to_ascii_uppercase() { bad.push(format!("to_uppercase_ascii_bmi2 got {:?}", up)); }
+        // byte-length preserving; identity outside letters; involutive on letters
+        if lo.len() != t.len() || up.len() != t.len() { bad.push("case conversion changed the byte length".into()); }
+        for (i, &b) in t.as_bytes().iter().enumerate() {
+            if lo.len() != t.len() || up.len() != t.len() { break; }
+            let (l, u) = (lo.as_bytes()[i], up.as_bytes()[i]);
+            if !b.is_ascii_alphabetic() && (l != b || u != b) { bad.push(format!("byte {} at {} changed by case conversion", b, i)); }
+            if b.is_ascii_uppercase() && (u != b || l != b + 32) { bad.push(format!("upper-case letter at {}", i)); }
+            if b.is_ascii_lowercase() && (l != b || u != b - 32) { bad.push(format!("lower-case letter at {}", i)); }
+        }
+        if zipora::string::to_uppercase_ascii_bmi2(&lo) != up || zipora::string::to_lowercase_ascii_bmi2(&up) != lo { bad.push("upper(lower(s)) != upper(s) or lower(upper(s)) != lower(s)".into()); }
+        let bp = zipora::string::Bmi2StringProcessor::new();
+        if bp.to_lowercase_ascii_bmi2(&t) != lo || bp.to_uppercase_ascii_bmi2(&t) != up { bad.push("Bmi2StringProcessor methods differ from the free functions".into()); }
+        bad.truncate(4);
+        let terms = vec![
+            format!("(CCase 0 {} {})%N", more::coq_bl(t.as_bytes()), more::coq_bl(lo.as_bytes())),
+            format!("(CCase 1 {} {})%N", more::coq_bl(t.as_bytes()), more::coq_bl(up.as_bytes())),
+        ];
+        (bad, terms)
     });
     match r {
         Err(p) => cx.sum.fail(cell, None, cj, &format!("panicked: {}", p)),
-        Ok(bad) => if !bad.is_empty() { cx.sum.fail(cell, None, cj, &bad.join("; ")); }
+        Ok((bad, terms)) => {
+            if !bad.is_empty() { cx.sum.fail(cell, None, cj.clone(), &bad.join("; ")); }
+            for t in terms { more::push_coq(cx, t, cj.clone()); }
+        }
     }
 }
 
@@ -358,15 +488,28 @@ fn run_one(cx: &mut Ctx, c: &Value) {
         Some("lexiter") => lex_iter_case(cx, &strs_of(&c["strings"]), &strs_of(&c["probes"])),
         Some("lines") => lines_case(cx, c["text"].as_str().unwrap_or("")),
         Some("case") => case_conv(cx, &bytes_of(&c["text"])),
+        Some("split") => split_case(cx, c["text"].as_str().unwrap_or(""), c["d"].as_u64().unwrap_or(44) as u8),
+        Some("faststr_deep") => more::faststr_deep(cx, &bytes_of(&c["a"])),
+        Some("streaming") => more::streaming_case(cx, &strs_of(&c["strings"]), &bytes_of(&c["terms"]), c["cut_last"].as_bool().unwrap_or(false)),
+        Some("sortable") => more::sortable_case(cx, &strs_of(&c["strings"]), &strs_of(&c["probes"])),
+        Some("sortable_long") => more::sortable_long_case(cx, c["len"].as_u64().unwrap_or(0) as usize),
+        Some("zo") => more::zo_case(cx, &strs_of(&c["strings"]), &strs_of(&c["probes"])),
+        Some("unicode") => more::unicode_case(cx, &bytes_of(&c["text"])),
+        Some("lines_cfg") => more::lines_cfg_case(cx, c["text"].as_str().unwrap_or(""), c["cfg"].as_u64().unwrap_or(0), c["batch"].as_u64().unwrap_or(0) as usize, c["delim"].as_str().unwrap_or("")),
+        Some("lexops") => {
+            let ops: Vec<(u8, String)> = c["ops"].as_array().map(|a| a.iter().map(|o| (o[0].as_u64().unwrap_or(0) as u8, o[1].as_str().unwrap_or("").to_string())).collect()).unwrap_or_default();
+            more::lex_ops_case(cx, &strs_of(&c["strings"]), &ops)
+        }
         _ => cmp_case(cx, &bytes_of(&c["a"]), &bytes_of(&c["b"]), true),
     }
 }
 
 pub fn run(args: &Args) {
     let mut cx = Ctx {
-        sum: Summary::new("C20", "numeric comparators: all pairs of strings over {+,-,0,1,9,.,a} up to length 3 (quick) / 4 (thorough) against an exact integer-arithmetic value oracle, antisymmetry on all pairs, transitivity on all triples up to length 2, plus generated long numerals; FastStr/join/words/lines/lex-iterator/case: generated byte strings and lists (empties, duplicates, bytes >= 0x80) against std; non-trivial = at least one operand of length >= 2 (or list of >= 2)"),
+        sum: Summary::new("C20", "numeric comparators: all pairs of strings over {+,-,0,1,9,.,a} up to length 3 (quick) / 4 (thorough) against an exact integer-arithmetic value oracle, antisymmetry on all pairs, transitivity on all triples up to length 2, plus generated long numerals (equal values written differently); FastStr: generated pairs plus the deep oracle on every length 0..=130 (24 alignments, every constructor, one byte changed at every position, every cut point, find of every substring start); join/split/words/lines/case/lex-iterator histories: generated lists and texts (empties, duplicates, bytes >= 0x80, all line-ending mixes) against std, a sample evaluated in Coq against the models; StreamingLexIterator/SortableStrVec (up to 1300 strings, 2^20-byte strings)/ZoSortedStrVec/unicode/LineProcessor configurations against std; corpus of past witnesses first; non-trivial = at least one operand of length >= 2 (or list of >= 2)"),
         shards: CoqShards::new(HEADER, 500),
-        budget: if args.thorough { 30000 } else { 4000 },
+        budget: if args.thorough { 12000 } else { 1800 },
+        emit: true,
     };
     let mut rng = Rng::new(args.seed);
     if let Some(f) = &args.replay {
@@ -377,7 +520,8 @@ pub fn run(args: &Args) {
         cx.sum.write(&args.out, sh);
         return;
     }
-    if let Ok(rd) = std::fs::read_dir("/verif/corpus/C20") {
+    let corpus_dir = if std::path::Path::new("corpus/C20").is_dir() { "corpus/C20" } else { "/verif/corpus/C20" };
+    if let Ok(rd) = std::fs::read_dir(corpus_dir) {
         let mut files: Vec<_> = rd.filter_map(|e| e.ok()).map(|e| e.path()).collect();
         files.sort();
         for p in files {
@@ -447,6 +591,17 @@ pub fn run(args: &Args) {
         if i < 3 { cx.sum.sample(json!({"a": String::from_utf8_lossy(&a), "b": String::from_utf8_lossy(&b)})); }
     }
     // --- FastStr
+    cx.budget = if args.thorough { 30000 } else { 4000 };
+    // deep oracle: every length 0..=130, differently built contents (high-bit bytes, tiny alphabet, boundary bytes)
+    for rep in 0..(if args.thorough { 8 } else { 1 }) {
+        for n in 0..=130usize {
+            let a: Vec<u8> = (0..n).map(|_| match rng.below(4) { 0 => (rng.next() as u8) | 0x80, 1 => *rng.pick(b"ab"), _ => rng.next() as u8 }).collect();
+            more::faststr_deep(&mut cx, &a);
+            let b: Vec<u8> = (0..n).map(|_| *rng.pick(&[b'a', b'b', 0x80, 0xff, 0x7f, 0])).collect();
+            more::faststr_deep(&mut cx, &b);
+            if rep == 0 && n % 13 == 0 { more::faststr_deep(&mut cx, &vec![b'a'; n]); }
+        }
+    }
     let nfs = if args.thorough { 60000 } else { 4000 };
     for i in 0..nfs {
         let a = rand_bytes_biased(&mut rng, if i % 10 == 0 { 130 } else { 12 });
@@ -474,6 +629,8 @@ pub fn run(args: &Args) {
     let nl = if args.thorough { 40000 } else { 3000 };
     let pool = ["", "a", "b", "ab", "a,b", " ", "x y", "é", "abc", "A_1", "-", ","];
     for i in 0..nl {
+        // string-model cases for Coq: a sample spread over the whole run
+        cx.emit = i % (if args.thorough { 2 } else { 14 }) == 0;
         let np = rng.below(5) as usize;
         let parts: Vec<String> = (0..np).map(|_| rng.pick(&pool).to_string()).collect();
         let sep = *rng.pick(&[",", "", " ", "\t", "::", "|"]);
@@ -481,6 +638,10 @@ pub fn run(args: &Args) {
         let t = rand_bytes_biased(&mut rng, 24);
         words_case(&mut cx, &t);
         case_conv(&mut cx, &t);
+        // letters at the edges of the alphabet ranges and their neighbours, long enough for the 8-byte chunk path
+        let ct: Vec<u8> = (0..rng.below(41)).map(|_| *rng.pick(b"AZaz@[`{MmNn09_ \xc3\x89\xff")).collect();
+        case_conv(&mut cx, &ct);
+        words_case(&mut cx, &ct);
         let line_alpha = ["a", "b", "\n", "\r\n", "\r", " ", ""];
         let text: String = (0..rng.below(8)).map(|_| *rng.pick(&line_alpha)).collect();
         lines_case(&mut cx, &text);
@@ -490,13 +651,67 @@ pub fn run(args: &Args) {
         let probes: Vec<String> = ["", "a", "aa", "ab", "b", "bb", "z"].iter().map(|s| s.to_string()).collect();
         lex_iter_case(&mut cx, &strings, &probes);
         if i < 2 { cx.sum.sample(json!({"join_sep": sep, "parts": parts, "lines": text, "sorted": strings})); }
+        // --- split at a single-byte delimiter (arbitrary text)
+        let stext: String = (0..rng.below(9)).map(|_| *rng.pick(&["a", "b", ",", ",", " ", "\t", "é", ""])).collect();
+        split_case(&mut cx, &stext, *rng.pick(&[b',', b'\t', b' ', b'a']));
+        // --- lexicographic iterator: operation histories (model tie) on lists with duplicates and empty strings
+        let lpool = ["", "", "a", "a", "aa", "ab", "b", "b", "ba", "c", "é"];
+        let mut ls: Vec<String> = (0..rng.below(8)).map(|_| rng.pick(&lpool).to_string()).collect();
+        ls.sort();
+        let ops: Vec<(u8, String)> = (0..rng.range(1, 8)).map(|_| {
+            let code = *rng.pick(&[0u8, 0, 0, 1, 1, 2, 3, 4, 4, 4, 5, 5]);
+            let t = if code >= 4 { rng.pick(&["", "a", "aa", "ab", "b", "bb", "c", "z", "é"]).to_string() } else { String::new() };
+            (code, t)
+        }).collect();
+        more::lex_ops_case(&mut cx, &ls, &ops);
+        // --- streaming iterator over the same kind of list
+        let terms: Vec<u8> = (0..ls.len()).map(|_| rng.below(2) as u8).collect();
+        more::streaming_case(&mut cx, &ls, &terms, rng.chance(1, 2));
+        // --- unicode.rs
+        let utext: Vec<u8> = if rng.chance(1, 4) { rand_bytes_biased(&mut rng, 40) } else {
+            let k = if rng.chance(1, 8) { rng.range(30, 70) } else { rng.below(8) };
+            (0..k).map(|_| *rng.pick(&["a", "Z", "é", "É", "ß", "€", "😀", " ", "\u{7f}", "ǅ", "İ"])).collect::<String>().into_bytes()
+        };
+        more::unicode_case(&mut cx, &utext);
+        // --- LineProcessor configurations
+        let ltext: String = (0..rng.below(9)).map(|_| *rng.pick(&["a", "b,", " ", "\t", "\n", "\n", "\r\n", "\r", ""])).collect();
+        more::lines_cfg_case(&mut cx, &ltext, rng.below(8), rng.below(4) as usize, *rng.pick(&[",", "", " ", "b,"]));
+        // --- sorted string vectors
+        if i % 3 == 0 {
+            let spool = ["", "", "a", "a", "aa", "ab", "abc", "b", "ba", "c", "é", "éa", "\u{7f}", "€", "Z", "a b"];
+            let mut v: Vec<String> = (0..rng.below(10)).map(|_| rng.pick(&spool).to_string()).collect();
+            if rng.chance(1, 12) && !v.is_empty() { let k = rng.below(v.len() as u64) as usize; v[k] = rng.pick(&["\0", "a\0b", "a\0"]).to_string(); }
+            let probes: Vec<String> = ["", "a", "aa", "ab", "b", "bb", "z", "é", "\u{80}"].iter().map(|s| s.to_string()).collect();
+            more::sortable_case(&mut cx, &v, &probes);
+            if rng.chance(5, 6) { v.sort(); }
+            more::zo_case(&mut cx, &v, &probes);
+        }
     }
+    // larger sorted vectors: radix path (>= 32 strings per bucket), block binary search (> 512 strings), long shared prefixes
+    for (k, &n) in [33usize, 64, 100, 300, 600, 1300].iter().enumerate() {
+        if !args.thorough && k >= 5 && args.seed % 2 == 1 { continue; }
+        let prefix: String = if k % 2 == 0 { "common/prefix/".into() } else { String::new() };
+        let mut v: Vec<String> = (0..n).map(|_| {
+            let l = rng.below(7);
+            let body: String = (0..l).map(|_| *rng.pick(&["a", "b", "é", "\u{7f}", "0"])).collect();
+            if rng.chance(1, 10) { String::new() } else { format!("{}{}", prefix, body) }
+        }).collect();
+        let mut probes: Vec<String> = (0..12).map(|_| v[rng.below(n as u64) as usize].clone()).collect();
+        probes.extend(["", "a", "common/prefix/", "common/prefix/ab", "zzz", "common/prefix/é"].iter().map(|s| s.to_string()));
+        more::sortable_case(&mut cx, &v, &probes);
+        v.sort();
+        probes.truncate(8);
+        more::zo_case(&mut cx, &v, &probes);
+    }
+    more::sortable_long_case(&mut cx, (1 << 20) - 1);
+    more::sortable_long_case(&mut cx, 1 << 20);
+    more::sortable_long_case(&mut cx, (1 << 20) + 5);
     cx.sum.cell_status("FastStr", "S-only");
-    cx.sum.cell_status("join", "S-only");
-    cx.sum.cell_status("words", "S-only");
-    cx.sum.cell_status("SortedVecLexIterator", "S-only");
-    cx.sum.cell_status("LineProcessor", "S-only");
-    cx.sum.cell_status("ascii_case", "S-only");
+    cx.sum.cell_status("StreamingLexIterator", "S-only");
+    cx.sum.cell_status("SortableStrVec", "S-only");
+    cx.sum.cell_status("ZoSortedStrVec", "S-only");
+    cx.sum.cell_status("unicode", "S-only");
+    cx.sum.cell_status("LineProcessor_configs", "S-only");
     cx.sum.dist_max("coq_cases", cx.shards.len() as u64);
     let sh = cx.shards.write(&args.out);
     cx.sum.write(&args.out, sh);
